@@ -7,7 +7,7 @@
     Rust Lexer is deep is exercised by the correspondence run. Not covered by a theorem (recorded
     finding C05-filter-change-after-eager-skip): entries skipped eagerly under an earlier filter are
     no longer among [ys]. *)
-From Tephra Require Import MetricsSpec CLexer LexerFacts.
+From Tephra Require Import MetricsSpec CLexer LexerFacts LexerOps.
 
 Theorem C05_peek_unobservable :
   forall m, 1 <= tabw m -> forall t, wf_text t -> forall lx ys, Inv m t lx ys ->
@@ -54,6 +54,61 @@ Theorem C05_scanner_state_is_sequential :
   forall f ys x, In x (kept f ys) -> In x ys.
 Proof. intros f ys x H. unfold kept in H. apply filter_In in H. tauto. Qed.
 Print Assumptions C05_scanner_state_is_sequential.
+
+(** the derived operations, on the deliverable stream *)
+Theorem C05_next_if :
+  forall m, 1 <= tabw m -> forall t, wf_text t ->
+  forall lx ys p, Inv m t lx ys ->
+  match kept (c_filter lx) ys with
+  | x :: s =>
+    if p (e_tok x)
+    then exists lx' ys', c_next_if lx p = Ok (Some (e_tok x), lx') /\ Inv m t lx' ys'
+           /\ c_filter lx' = c_filter lx /\ kept (c_filter lx) ys' = s
+    else exists lx' ys', c_next_if lx p = Ok (None, lx') /\ Inv m t lx' ys'
+           /\ c_filter lx' = c_filter lx /\ kept (c_filter lx) ys' = x :: s
+  | [] => exists lx' ys', c_next_if lx p = Ok (None, lx') /\ Inv m t lx' ys'
+            /\ c_filter lx' = c_filter lx /\ kept (c_filter lx) ys' = []
+  end.
+Proof. exact c_next_if_spec. Qed.
+Print Assumptions C05_next_if.
+
+Theorem C05_next_if_eq : forall lx e, c_next_if_eq lx e = c_next_if lx (tok_eqb e).
+Proof. reflexivity. Qed.
+Print Assumptions C05_next_if_eq.
+
+Theorem C05_advance_to :
+  forall m, 1 <= tabw m -> forall t, wf_text t ->
+  forall p s fuel lx ys, Inv m t lx ys -> kept (c_filter lx) ys = s -> length s < fuel ->
+  match split_first p s with
+  | Some (_, x, rest) =>
+    exists lx' ys', c_advance_to fuel lx p = Ok (true, lx') /\ Inv m t lx' ys'
+      /\ c_filter lx' = c_filter lx /\ kept (c_filter lx) ys' = rest
+  | None => exists lx' ys', c_advance_to fuel lx p = Ok (false, lx') /\ Inv m t lx' ys'
+      /\ c_filter lx' = c_filter lx /\ kept (c_filter lx) ys' = []
+  end.
+Proof. exact c_advance_to_spec. Qed.
+Print Assumptions C05_advance_to.
+
+Theorem C05_advance_up_to :
+  forall m, 1 <= tabw m -> forall t, wf_text t ->
+  forall p s fuel lx ys, Inv m t lx ys -> kept (c_filter lx) ys = s -> length s < fuel ->
+  match split_first p s with
+  | Some (_, x, rest) =>
+    exists lx' ys', c_advance_up_to fuel lx p = Ok (true, lx') /\ Inv m t lx' ys'
+      /\ c_filter lx' = c_filter lx /\ kept (c_filter lx) ys' = x :: rest
+  | None => exists lx' ys', c_advance_up_to fuel lx p = Ok (false, lx') /\ Inv m t lx' ys'
+      /\ c_filter lx' = c_filter lx /\ kept (c_filter lx) ys' = []
+  end.
+Proof. exact c_advance_up_to_spec. Qed.
+Print Assumptions C05_advance_up_to.
+
+Theorem C05_split_first_is_first :
+  forall p s, match split_first p s with
+  | Some (pre, x, q) => s = pre ++ x :: q /\ Forall (fun y => p (e_tok y) = false) pre /\ p (e_tok x) = true
+  | None => Forall (fun y => p (e_tok y) = false) s
+  end.
+Proof. exact split_first_spec. Qed.
+Print Assumptions C05_split_first_is_first.
 
 (** the recorded finding, on the model: next; sublex; set_filter(None); next on "a b" delivers B,
     while next; set_filter(None); next delivers the whitespace token *)
